@@ -478,6 +478,112 @@ def _make(rows, form):
     return obj, _exact(np.asarray(obj))
 
 
+
+# ---- caller-owned containers that are REUSED (round 4).  A reuse kind says which ONE object per role (X) and
+# shape the caller keeps, refills in place before every call and passes again -- to set_reference and to update alike
+# (the preallocated read buffer of a batch loop).  The model sees the values written, never the object.
+REUSE_CAP = 12  # rows of the preallocated capacity buffers (>= the longest menu batch; checked)
+REUSE_SCRIBBLE = -77  # what the caller leaves in its buffers when the history is over (no menu value; exact in every dtype)
+REUSE_KINDS = {
+    # kind: (needs 1-D data, description)
+    "nd2": (False, "one C-contiguous 2-D ndarray per shape, refilled with buf[...] = batch"),
+    "nd2-slice": (False, "one (12, d) capacity ndarray; the first n rows are refilled and the view buf[:n] is passed"),
+    "nd2-T": (False, "one (d, 12) capacity ndarray filled column-wise; the non-contiguous view buf[:, :n].T is passed"),
+    "nd2-F": (False, "one Fortran-ordered 2-D ndarray per shape, refilled in place"),
+    "df": (False, "one DataFrame per shape (labels not sorted, descending index), refilled with df.iloc[:, :] = batch"),
+    "nd1": (True, "one 1-D ndarray per length (univariate data), refilled in place"),
+    "nd1-slice": (True, "one (12,) capacity ndarray; the view buf[:n] is passed"),
+    "series": (True, "one Series per length (non-default index), refilled with s.iloc[:] = batch"),
+}
+
+
+def _reuse_write(kind, store, n, d, dtype, values):
+    """Write ``values`` (n x d ndarray, or a scalar) into the caller's container for this shape -- creating it the
+    first time -- and return (object to pass, True if the container existed before)."""
+    if kind in ("nd2", "nd2-F", "df"):
+        key = "%s:%dx%d" % (kind, n, d)
+    elif kind in ("nd1", "series"):
+        key = "%s:%d" % (kind, n)
+    else:
+        key = "%s:cap" % kind
+    had = key in store
+    if kind == "nd2":
+        buf = store.setdefault(key, np.zeros((n, d), dtype=dtype))
+        buf[...] = values
+        return buf, had
+    if kind == "nd2-F":
+        buf = store.setdefault(key, np.zeros((n, d), dtype=dtype, order="F"))
+        buf[...] = values
+        return buf, had
+    if kind == "nd2-slice":
+        buf = store.setdefault(key, np.zeros((REUSE_CAP, d), dtype=dtype))
+        buf[:n] = values
+        return buf[:n], had
+    if kind == "nd2-T":
+        buf = store.setdefault(key, np.zeros((d, REUSE_CAP), dtype=dtype))
+        buf[:, :n] = values if np.isscalar(values) else np.asarray(values).T
+        return buf[:, :n].T, had
+    if kind == "df":
+        if not had:
+            store[key] = pd.DataFrame(np.zeros((n, d), dtype=dtype), columns=_DF_LABELS[:d],
+                                      index=[5 + 2 * (n - 1 - i) for i in range(n)])
+        store[key].iloc[:, :] = values
+        return store[key], had
+    col = values if np.isscalar(values) else np.asarray(values)[:, 0]
+    if kind == "nd1":
+        buf = store.setdefault(key, np.zeros(n, dtype=dtype))
+        buf[...] = col
+        return buf, had
+    if kind == "nd1-slice":
+        buf = store.setdefault(key, np.zeros(REUSE_CAP, dtype=dtype))
+        buf[:n] = col
+        return buf[:n], had
+    if kind == "series":
+        if not had:
+            store[key] = pd.Series(np.zeros(n, dtype=dtype), index=[5 + 2 * (n - 1 - i) for i in range(n)])
+        store[key].iloc[:] = col
+        return store[key], had
+    raise HarnessError("HARNESS-CRASH: unknown reuse kind %r" % (kind,))
+
+
+def _reuse_fill(cfg, unit, rows, ctx=None):
+    """The batch ``rows`` as it reaches the detector in a reuse family: written in place into the caller's ONE
+    container for that shape (kept in the explored state: unit["bufs"]), which is then passed -- again."""
+    kind, form = cfg["reuse"], _form_of(cfg, "ref")
+    a = _arr(rows, form)
+    if a.ndim != 2 or len(a) > REUSE_CAP or (REUSE_KINDS[kind][0] and a.shape[1] != 1):
+        raise HarnessError("HARNESS-CRASH: reuse kind %s cannot hold a batch of shape %r" % (kind, a.shape))
+    store = unit.setdefault("bufs", {})
+    n, d = a.shape
+    obj, had = _reuse_write(kind, store, n, d, a.dtype, a)
+    vals = np.asarray(obj)
+    got = _exact(vals.reshape(n, d))
+    if vals.dtype != a.dtype or got != _exact(a):
+        raise HarnessError("HARNESS-CRASH: the reused %s (%s) does not hold the values written to it" % (kind, form))
+    shapes = unit.setdefault("buf_last", {})
+    skey = "%dx%d" % (n, d) if kind in ("nd2", "nd2-F", "df", "nd1", "series") else "cap"
+    if ctx is not None and had:
+        ctx.count("reuse_container_passed_again")
+        if shapes.get(skey) != got:
+            ctx.mark("reuse_container_overwritten_with_other_values")
+    shapes[skey] = got
+    if ctx is not None:
+        ctx.count("reuse_kind_" + kind)
+    return obj, got
+
+
+def _reuse_scribble(cfg, unit):
+    """The history is over: the caller overwrites every container it ever passed."""
+    for key, buf in unit.get("bufs", {}).items():
+        if isinstance(buf, pd.DataFrame):
+            buf.iloc[:, :] = REUSE_SCRIBBLE
+        elif isinstance(buf, pd.Series):
+            buf.iloc[:] = REUSE_SCRIBBLE
+        else:
+            buf[...] = REUSE_SCRIBBLE
+    unit["buf_last"] = {}
+
+
 def _form_of(cfg, which):
     f = cfg.get("forms")
     if f is None:
@@ -496,20 +602,24 @@ def _decode(ev):
     raise HarnessError("HARNESS-CRASH: unknown NNDVI event %r" % (ev,))
 
 
-def _batch(cfg, which):
+def _batch(cfg, which, unit=None, ctx=None):
     m = BATCH_MENU[cfg["menu"]]
     rows = m["ref"] if which == "ref" else m["menu"][which]
+    if cfg.get("reuse"):
+        return _reuse_fill(cfg, unit, rows, ctx)
     return _make(rows, _form_of(cfg, which))
 
 
 def _new_unit(cfg, seed_id):
     det = NNDVI(k_nn=cfg["k_nn"], sampling_times=cfg["sampling_times"], alpha=cfg["alpha"])
-    obj, rows = _batch(cfg, "ref")
+    unit = {"aux": {"user_ref": False, "updates": 0}}
+    obj, rows = _batch(cfg, "ref", unit)  # reuse families: the caller's container is born here, inside the state
     rng.seed_step(0, seed_id, "set_reference")
     det.set_reference(obj)
     model = M.NNDVIModel(cfg["k_nn"], cfg["sampling_times"], cfg["alpha"])
     model.set_reference(rows)
-    return {"det": det, "model": model, "aux": {"user_ref": False, "updates": 0}}
+    unit.update(det=det, model=model)
+    return unit
 
 
 def _probe(cfg, ref_before, X, seed, seed_id, pos):
@@ -532,15 +642,42 @@ def _probe(cfg, ref_before, X, seed, seed_id, pos):
         return None, hint
 
 
+def _reuse_after_history(cfg, unit, ctx, pos):
+    """Reuse families, after the last call of the history: the caller overwrites every container it ever passed
+    (whatever their shapes); the reference must still be the batch that was given / that raised the last alarm."""
+    det, model = unit["det"], unit["model"]
+    _reuse_scribble(cfg, unit)
+    ref = np.asarray(det.reference_batch, dtype=float).tolist()
+    exp = [[float(x) for x in r] for r in model.ref]
+    if ref != exp:
+        raise Violation("nndvi-reference",
+                        "NNDVI %s: after call %d the caller overwrote its (reused) containers with %r and "
+                        "reference_batch followed: it is no longer the batch that was given" % (cfg["id"], pos + 1, REUSE_SCRIBBLE),
+                        expected={"reference": exp}, observed={"reference": ref},
+                        sig="nndvi-reference|caller-container-overwritten")
+    ctx.count("reuse_histories_ending_with_all_containers_overwritten")
+
+
 def _unit_step(cfg, unit, ev, pos, ctx, seed_id, last_pos):
     """One call on one detector + its model; all oracles; returns the observation."""
     det = unit["det"]
     aux = unit["aux"]
     fam = cfg.get("family")
     kind, which = _decode(ev)
-    obj, batch = _batch(cfg, which)
-    ref_before = np.array(det.reference_batch, dtype=float, copy=True)
+    ref_before = np.array(det.reference_batch, dtype=float, copy=True)  # before the caller touches its containers
     state_before = det.drift_state
+    obj, batch = _batch(cfg, which, unit, ctx)
+    reuse = cfg.get("reuse")
+    if reuse:
+        # the caller has just refilled its container for this call; nothing has been called yet
+        ref_now = np.asarray(det.reference_batch, dtype=float)
+        if ref_now.shape != ref_before.shape or ref_now.tolist() != ref_before.tolist():
+            raise Violation("nndvi-reference",
+                            "NNDVI %s: reference_batch changed while the caller refilled its reused container (%s, %s) "
+                            "for call %d (%s of batch %s): the reference is not the batch that was given but follows "
+                            "the caller's object" % (cfg["id"], reuse, _form_of(cfg, "ref"), pos + 1, kind, which),
+                            expected={"reference": ref_before.tolist()}, observed={"reference": ref_now.tolist()},
+                            sig="nndvi-reference|caller-container-overwritten")
 
     if kind == "set_reference":
         rng.seed_step(ctx.seed, seed_id, pos)
@@ -568,6 +705,10 @@ def _unit_step(cfg, unit, ev, pos, ctx, seed_id, last_pos):
             ctx.count("user_set_reference_right_after_drift")
         if fam:
             ctx.count("nndvi_family_%s_steps" % fam)
+        if reuse:
+            ctx.count("reuse_set_reference_calls")
+            if pos == last_pos:
+                _reuse_after_history(cfg, unit, ctx, pos)
         return obs
 
     rng.seed_step(ctx.seed, seed_id, pos)
@@ -608,8 +749,10 @@ def _unit_step(cfg, unit, ev, pos, ctx, seed_id, last_pos):
         else:
             sub = "nndvi-counters"
             what = "lifecycle counters differ on %s" % bad
-        raise Violation(sub, "NNDVI %s: %s at update %d (batch %s, %d rows vs. reference of %d rows; implementation "
-                        "threshold via helper = %r)" % (cfg["id"], what, pos + 1, ev, len(batch), len(ref_before), theta_impl),
+        raise Violation(sub, "NNDVI %s: %s at update %d (batch %s%s, %d rows vs. reference of %d rows; implementation "
+                        "threshold via helper = %r)" % (cfg["id"], what, pos + 1, ev,
+                                                        " in the caller's reused %s" % reuse if reuse else "",
+                                                        len(batch), len(ref_before), theta_impl),
                         expected=dict(exp, d=info["d"], theta=info["theta"]), observed=obs,
                         sig="%s|%s" % (sub, size_cls))
     # sharpened: the threshold itself (private helper, same seed) -- comparable when the model worked on
@@ -678,6 +821,16 @@ def _unit_step(cfg, unit, ev, pos, ctx, seed_id, last_pos):
             ctx.count("histories_with_3plus_drifts")
     if obs["state"] == "drift" and model.drifts >= 2 and obs["since"] == 1:
         ctx.count("back_to_back_drifts")
+    if reuse:
+        ctx.count("reuse_updates")
+        if obs["state"] == "drift":
+            ctx.count("reuse_drifts_on_a_reused_container")
+        if aux.get("reuse_drifted"):
+            ctx.count("reuse_updates_after_a_drift_on_a_reused_container")
+        if obs["state"] == "drift":
+            aux["reuse_drifted"] = True
+        if pos == last_pos:
+            _reuse_after_history(cfg, unit, ctx, pos)
     return obs
 
 
@@ -692,6 +845,77 @@ class NNDVISystem(System):
 
     def step(self, cfg, state, ev, pos, ctx):
         return _unit_step(cfg, state, ev, pos, ctx, cfg["id"], cfg["len"] - 1)
+
+
+def run_reuse(task, seed):
+    """Every event sequence of the task, each executed FROM SCRATCH (fresh detector, fresh caller containers): a
+    deep-copied snapshot would turn a detector-held *view* of the caller's container into an independent array and so
+    cut exactly the aliasing this family is about."""
+    from mc import procstate
+    from mc.explorer import run_path
+
+    t0 = time.time()
+    system = SYSTEMS[task["system"]]
+    cfg = task["cfg"]
+    prefix = list(task.get("prefix", ()))
+    evs = list(cfg.get("events", [0, 1, 2, 3]))
+    ctx = Ctx(seed)
+    st = ctx.stats
+    violations, samples = [], []
+    per_sig = {}
+    seen_prefixes = set()
+    dead = []  # violating prefixes: nothing is explored below them (as in the DFS explorer)
+    for tail in itertools.product(evs, repeat=task["depth"]):
+        events = prefix + list(tail)
+        if any(events[:len(d)] == d for d in dead):
+            continue
+        procstate.reset()
+        state = system.init(cfg)
+        nmarks = 0
+        obs = None
+        ok = True
+        for pos, ev in enumerate(events):
+            ctx.marks = 0
+            ctx.terminal = False
+            try:
+                obs = system.step(cfg, state, ev, pos, ctx)
+            except Violation as v:
+                ok = False
+                bad = events[:pos + 1]
+                dead.append(bad)
+                st["violations_raw"] += 1
+                st["sig:" + str(v.sig)] += 1
+                per_sig[v.sig] = per_sig.get(v.sig, 0) + 1
+                if per_sig[v.sig] <= 3:
+                    for _ in range(2):
+                        _, v2 = run_path(system, cfg, bad, seed)
+                        if v2 is None or (v2.sub, v2.msg) != (v.sub, v.msg):
+                            raise HarnessError("HARNESS-NONDET: violation %r on %s cfg=%r events=%r did not reproduce "
+                                               "from scratch" % ((v.sub, v.msg), system.name, cfg, bad))
+                    violations.append(artefact(PROPERTY, system, cfg, seed, bad, v))
+                break
+            st["transitions"] += 1
+            if ctx.marks:
+                nmarks += 1
+            pre = tuple(map(str, events[:pos + 1]))
+            if pre not in seen_prefixes:
+                seen_prefixes.add(pre)
+                st["states"] += 1
+        if not ok:
+            continue
+        st["executions"] += 1
+        st["executions_from_scratch"] += 1
+        if nmarks:
+            st["nontrivial_executions"] += 1
+        if st["executions"] % 17 == 1:
+            obs2, v2 = run_path(system, cfg, events, seed)
+            if v2 is not None or not obs2 or not _same(obs2[-1], obs):
+                raise HarnessError("HARNESS-NONDET: %s history %r is not repeatable" % (system.name, events))
+            st["fresh_replays"] += 1
+        if len(samples) < 1 or (nmarks and len(samples) < 2):
+            samples.append({"system": system.name, "cfg": jsonable(cfg), "events": jsonable(events),
+                            "last_obs": jsonable(obs), "nontrivial_events": nmarks})
+    return {"stats": dict(st), "violations": violations, "samples": samples, "wall": time.time() - t0}
 
 
 class NNDVIMultiSystem(System):
@@ -865,6 +1089,36 @@ def _family_tasks(tier):
         forms = "i?" if menu == "2d-int" else None
         for cid, c in cfgs(menu, (k,), (s_,), (a,), forms, events=ev_sr):
             out += _nndvi_tasks("setref:" + cid, c, L + 1, split=2, family="user-set-reference")
+    # ---------------------------------------------------------------- caller-owned containers reused (round 4)
+    # ONE container per shape for the X role, refilled in place and passed to set_reference and update alike; every
+    # sequence is executed from scratch (run_reuse).  Shapes collide inside every menu (1d-ms: reference, batch 0 and
+    # batch 1 have 6 rows; 2d-ms / 2d-dec: reference and batch 0 have 5 rows, batch 1 and batch 3 have 7; 2d-int
+    # likewise), so a kept container is overwritten with other values after set_reference, after a user's
+    # set_reference mid-history and after a hand-over on drift; the capacity kinds share memory between all shapes.
+    for name, m in BATCH_MENU.items():
+        if max(len(b) for b in [m["ref"]] + m["menu"]) > REUSE_CAP:
+            raise HarnessError("HARNESS-CRASH: batch menu %s has a batch longer than REUSE_CAP" % name)
+    reuse_plan = [
+        # (menu, form, kinds, k, events, length)
+        ("2d-ms", "f64", ("nd2", "nd2-slice", "nd2-T", "nd2-F", "df"), 2, None, L),
+        ("1d-ms", "f64", ("nd1", "nd1-slice", "series", "nd2", "df"), 2, None, L),
+        ("2d-int", "i64", ("nd2", "df"), 2, [0, 1, 3], L),          # batch 2 is not integral
+        ("2d-dec", "f32", ("nd2", "nd2-slice", "df"), 2, None, L),
+        # the user calls set_reference with the reused container mid-history / right after a drift
+        ("2d-ms", "f64", ("nd2", "df"), 2, ev_sr, L),
+        ("1d-ms", "f64", ("nd1",), 1, ev_sr, L),
+    ]
+    for menu, form, kinds, k, events, Lr in reuse_plan:
+        for kind in kinds:
+            for cid, c in cfgs(menu, (k,), (8,), (0.3,), form, events=events):
+                cid = "%s:%s:%s%s" % (kind, form, cid, "|setref" if events is ev_sr else "")
+                cfg = dict(c, id=cid, len=Lr, family="reuse", reuse=kind)
+                for first in (events or [0, 1, 2, 3]):
+                    out.append({
+                        "fn": "run_reuse", "system": "NNDVI", "cfg": cfg, "prefix": [first], "depth": Lr - 1,
+                        "label": "NNDVI|reuse|%s|%s" % (cid, first),
+                        "cost": 10 ** 6 + len(events or [0, 1, 2, 3]) ** (Lr - 1) * Lr * 6,
+                    })
     # several detectors interleaved
     units = [
         {"id": "u0", "menu": "1d-ms", "k_nn": 1, "sampling_times": 8, "alpha": 0.3},
